@@ -19,7 +19,7 @@ KNOWN = os.path.join(ROOT, 'known_findings.json')
 DEFAULT_CFG = dict(
     quick=dict(qtimeout_ms=10000, max_paths=20000, case_wall_s=100, budget_s=150, step_limit=3000,
                path_wall_s=60, validate_per_case=2, nra_at_decide=True),
-    thorough=dict(qtimeout_ms=60000, max_paths=400000, case_wall_s=1500, budget_s=1700, step_limit=6000,
+    thorough=dict(qtimeout_ms=60000, max_paths=400000, case_wall_s=700, budget_s=900, step_limit=6000,
                   path_wall_s=300, validate_per_case=10 ** 9, nra_at_decide=True),
 )
 
